@@ -30,9 +30,12 @@ CONSTANTS Pods, Gangs
 VARIABLES member, hold, fw, sat,
           released,   \* assumed pods that were let through Permit (their binding is under way)
           GangOf,     \* Pods -> Gangs                      (fixed during a behaviour)
-          Cfg         \* Gangs -> [min, strict, policy, group]   policy in {"once","waiting","waitrun"}; group \subseteq Gangs
-vars == <<member, hold, fw, sat, released, GangOf, Cfg>>
-Fixed == UNCHANGED <<GangOf, Cfg>>
+          Cfg,        \* Gangs -> [min, strict, policy, group]   policy in {"once","waiting","waitrun"}; group \subseteq Gangs
+          crd         \* BOOLEAN (fixed): gangs are declared by PodGroup objects - a gang then exists (and keeps its group's
+                      \* once-satisfied mark) as long as its PodGroup does, also without any member pod; declared by pod
+                      \* annotations a gang exists exactly as long as it has a member
+vars == <<member, hold, fw, sat, released, GangOf, Cfg, crd>>
+Fixed == UNCHANGED <<GangOf, Cfg, crd>>
 
 PodsOf(g)    == {p \in Pods : GangOf[p] = g}
 Children(g)  == {p \in PodsOf(g) : member[p]}
@@ -49,7 +52,7 @@ Holding(g) == IF Cfg[g].policy = "waitrun" THEN Cardinality(Waiting(g)) + Cardin
               ELSE Cardinality(Waiting(g))
 \* the once-satisfied exemption exists only under the once-satisfied match policy
 Exempt(g)  == Cfg[g].policy = "once" /\ Satisfied(Group(g))
-GangOK(g)  == Children(g) # {} /\ (Holding(g) >= Cfg[g].min \/ Exempt(g))
+GangOK(g)  == (crd \/ Children(g) # {}) /\ (Holding(g) >= Cfg[g].min \/ Exempt(g))
 GroupReady(G) == \A g \in G : GangOK(g)
 
 (***************************** property level ******************************)
@@ -78,7 +81,7 @@ InformerDelete(p) ==
     /\ fw'     = fw \ {p}               \* the framework drops a deleted pod from the permit stage (its Unreserve follows)
     /\ UNCHANGED released                \* a binding that is under way goes on (PostBind or Unreserve will arrive)
     \* the group's once-satisfied mark goes away with the last gang of the group
-    /\ sat'    = IF \A g \in GroupOfPod(p) : \A q \in PodsOf(g) : q # p => ~member[q]
+    /\ sat'    = IF ~crd /\ \A g \in GroupOfPod(p) : \A q \in PodsOf(g) : q # p => ~member[q]
                  THEN sat \ {GroupOfPod(p)} ELSE sat
 \* scheduler: p passed Reserve and enters Permit; released = Permit answered Success
 \* (then every parked member of the group is allowed too), otherwise p is parked
@@ -113,15 +116,22 @@ PostBindStep(p) ==
     /\ sat'  = sat \cup {GroupOfPod(p)}
     /\ UNCHANGED <<member, fw>>
 
-InitWith(go, c) == /\ member = [p \in Pods |-> FALSE] /\ hold = [p \in Pods |-> "none"]
-                   /\ fw = {} /\ sat = {} /\ released = {} /\ GangOf = go /\ Cfg = c
+\* the pod group object of gang g is updated (min member, mode, match policy, gang group): from now on the gang is
+\* judged by the new settings; what its members hold does not change
+PgSet(g, c) ==
+    /\ Cfg' = [Cfg EXCEPT ![g] = c]
+    /\ UNCHANGED <<member, hold, fw, sat, released, GangOf, crd>>
+
+InitWith3(go, c, b) == /\ member = [p \in Pods |-> FALSE] /\ hold = [p \in Pods |-> "none"]
+                       /\ fw = {} /\ sat = {} /\ released = {} /\ GangOf = go /\ Cfg = c /\ crd = b
+InitWith(go, c) == InitWith3(go, c, FALSE)
 
 (****************************** design level *******************************)
 \* isGangValidForPermit / Permit of core.go, evaluated after p was added to the waiting set
 GangValid(g, h) ==
     LET W == Cardinality({p \in PodsOf(g) : h[p] = "assumed"})
         B == Cardinality({p \in PodsOf(g) : h[p] = "bound"})
-    IN  /\ Children(g) # {}                        \* gang exists and is initialised
+    IN  /\ (crd \/ Children(g) # {})               \* gang exists and is initialised
         /\ CASE Cfg[g].policy = "waiting" -> W >= Cfg[g].min
              [] Cfg[g].policy = "waitrun" -> W + B >= Cfg[g].min
              [] OTHER -> W >= Cfg[g].min \/ Satisfied(Group(g))
